@@ -46,6 +46,9 @@ def check(chk):
     _pure_rebuild(chk)
     _alias(chk)
     _codec(chk)
+    # per-element transformers are stored under "0", "1", ...: rebuilding walks them in list order
+    from .common import index_key_order
+    index_key_order(chk, "SERIAL.index_keys", ("transformers",))
     chk.floor("SERIAL.closure", 29)
     chk.floor("SERIAL.getparams", 9)
     chk.floor("SERIAL.state", 35)
